@@ -57,6 +57,8 @@ class Sim:
         self.drift_p = drift_p
         self.max_steps = max_steps
         self.trace_prefixes = (os.path.join(REPO, "reactivex"),) + tuple(trace_extra)
+        self._root = REPO.rstrip("/") + "/"
+        self._cut = len(self._root)
         self.switch_log = []  # (step, from, to, site) at every context switch
         self.done = REAL_LOCK()
         self.done.acquire()
@@ -220,8 +222,8 @@ class Sim:
 
     def local_tracer(self, frame, event, arg):
         if event == "line" or event == "return":
-            code = frame.f_code
-            self.yield_point((code.co_filename[-40:], frame.f_lineno))
+            fn = frame.f_code.co_filename
+            self.yield_point((fn[self._cut:] if fn.startswith(self._root) else fn[-40:], frame.f_lineno))
         return self.local_tracer
 
 
